@@ -322,6 +322,9 @@ func c03Apply(s *c03State, opi int, res *engine.Result) bool {
 		if op.n == 7 {
 			copy(data, shaped)
 		}
+		if n == 0 && tag == 0xA0 && s.afLen%2 == 1 {
+			data = nil // "no bytes" as a nil slice on odd field lengths (an empty non-nil one on even ones)
+		}
 		switch {
 		case n > fit:
 			class = "present,too-large"
